@@ -2504,6 +2504,15 @@ impl DnsIncoming {
         let mut name = "".to_string();
         let mut at_end = false;
 
+        // RFC 1035 section 2.3.4 limits a domain name to 255 octets. Enforce that, and
+        // bound the number of compression pointers followed for one name: pointers only
+        // have to point before `start_offset`, so without these bounds a cycle among
+        // earlier offsets never terminates and a chain of pointers to pointers makes
+        // decoding quadratic in the datagram size.
+        const MAX_NAME_LEN: usize = 255;
+        const MAX_POINTER_JUMPS: usize = 127;
+        let mut jumps = 0;
+
         // From RFC1035:
         // "...Domain names in messages are expressed in terms of a sequence of labels.
         // Each label is represented as a one octet length field followed by that
@@ -2556,6 +2565,11 @@ impl DnsIncoming {
                     name += str::from_utf8(&data[offset..ending])
                         .map_err(|e| Error::Msg(format!("read_name: from_utf8: {e}")))?;
                     name += ".";
+                    if name.len() > MAX_NAME_LEN {
+                        return Err(Error::Msg(format!(
+                            "read_name: name is longer than {MAX_NAME_LEN} bytes"
+                        )));
+                    }
                     offset += length as usize;
                 }
                 0xC0 => {
@@ -2574,6 +2588,13 @@ impl DnsIncoming {
                         return Err(Error::Msg(format!(
                             "Invalid name compression: pointer {} must be less than the start offset {}",
                             &pointer, &start_offset
+                        )));
+                    }
+
+                    jumps += 1;
+                    if jumps > MAX_POINTER_JUMPS {
+                        return Err(Error::Msg(format!(
+                            "Invalid name compression: more than {MAX_POINTER_JUMPS} pointers in one name"
                         )));
                     }
 
